@@ -856,6 +856,12 @@ def _do_replay_file(path):
     cfg = rp["cfg"]
     print("configuration:", json.dumps(cfg))
     print("expected (TLC):", json.dumps(rp.get("expected")))
+    ex = rp.get("expected") or {}
+    for key in ("field", "var", "meanfield"):
+        if ex.get(key):
+            print("expected %s as floats: %s" % (key, [float(fr(q)) for q in ex[key]]))
+    print("failing mode:", rp.get("mode"), "| observed:", rp.get("observed"), "| expected:", rp.get("expected_value"),
+          "| localisation:", rp.get("localisation"))
     Capture.install()
     out = dict(rp.get("expected") or {})
     out.setdefault("edc", [])
